@@ -140,17 +140,29 @@ class FileCache:
         claim = len(new_file_contents)
         if claim > self.max_memory:
             raise MemoryError(f"requested file update larger than max_memory: {file_name} {claim} {self.max_memory}")
-        with self.file_futures_lock:
-            info = self.file_futures.get(file_name)
-            if info is None or not info[0]:
-                self._unload_file(file_name)
-                future = self.executor.submit(self._write_file, file_name, new_file_contents, use_fsync)
-                self.file_futures[file_name] = (True, claim, future)
-                write_applied = True
-            else:
-                assert info[0]
-                future = info[-1]
-                write_applied = False
+        while True:
+            with self.file_futures_lock:
+                info = self.file_futures.get(file_name)
+                loading = info is not None and not info[0] and not info[-1].done()
+                if loading:
+                    # a load of this file is reading it right now: let it finish before the file is
+                    # truncated, or the reader gets contents that were never written
+                    future = info[-1]
+                elif info is None or not info[0]:
+                    self._unload_file(file_name)
+                    future = self.executor.submit(self._write_file, file_name, new_file_contents, use_fsync)
+                    self.file_futures[file_name] = (True, claim, future)
+                    write_applied = True
+                else:
+                    assert info[0]
+                    future = info[-1]
+                    write_applied = False
+            if not loading:
+                break
+            try:
+                future.result()
+            except Exception:
+                pass
         future.result()
         return write_applied
 
@@ -181,6 +193,11 @@ class FileCache:
         None
         """
         with self.file_futures_lock:
+            info = self.file_futures.get(file_name)
+            if info is not None and not info[-1].done():
+                # a load or write of this file is in flight: nothing is cached yet, and the task
+                # needs its entry when it completes
+                return
             self.file_access_times = [(t, fn) for t, fn in self.file_access_times if fn != file_name]
             heapq.heapify(self.file_access_times)
             self._unload_file(file_name)
